@@ -628,6 +628,14 @@ func (e *expectedFile) has(n string) bool {
 		return true
 	}
 	if i := strings.LastIndex(n, "~"); i >= 0 {
+		if e.set[n[:i]] {
+			return true
+		}
+		n = n[:i]
+	}
+	// `assert … at CALLEE` holds at EVERY call of CALLEE: a call site that did not exist when the expected list was
+	// written (name@k) is covered by the claim made for the clause
+	if i := strings.LastIndex(n, "@"); i >= 0 && strings.Contains(n, "#assert:") {
 		return e.set[n[:i]]
 	}
 	return false
